@@ -23,6 +23,22 @@ Obligation(r) ==
                      \* "If an exception is thrown, the state of the NearestNeighbor is unchanged": the object that refused the
                      \* save still answers every query as the valid tree it held does (kept)
                      /\ (r.np < 0 => r.kept)
+    \* Initialize on an initialised object with a failure injected at a chosen point (fk = "dist": the k-th distance evaluation
+    \* throws GeographicErr; "alloc": the k-th allocation throws bad_alloc; k = 0 or beyond the last call/allocation: no failure;
+    \* "none": bucket outside the documented [0, 10]).  ncall / nalloc: what the unfaulted Initialize used (measured by the driver).
+    \* A failure must surface as the injected exception with the object unchanged (NumPoints, the text save, 12 searches on the
+    \* old points: kept); without failure the object must equal a freshly constructed one on the new points (fresh).
+    [] r.e = "nninit" ->
+         LET inj == CASE r.fk = "dist" -> r.k >= 1 /\ r.k <= r.ncall
+                      [] r.fk = "alloc" -> r.k >= 1 /\ r.k <= r.nalloc
+                      [] OTHER -> FALSE
+             badb == r.bucket < 0 \/ r.bucket > 10
+         IN /\ r.out \in {"ok", "GeographicErr", "bad_alloc"}
+            /\ (badb => r.out = "GeographicErr")
+            /\ (~badb /\ ~inj => r.out = "ok")
+            /\ (~badb /\ inj => r.out = (IF r.fk = "dist" THEN "GeographicErr" ELSE "bad_alloc"))
+            /\ (r.out = "ok" => r.fresh)
+            /\ (r.out # "ok" => r.kept)
     \* a malformed model file is rejected with the library's exception (or an allocation failure); if it is accepted the
     \* model must be usable (evaluation returns; non-finite values are possible when the file holds non-finite coefficients)
     \* A coefficient set with N = M = -1 and no coefficients is well formed ("N >= -1", "N >= M >= -1", (M+1)(2N-M+2)/2 = 0
